@@ -350,6 +350,26 @@ def check_predictor(ctx, cfg, p, X, xq, st, info=None):
         except Exception as e:  # noqa
             bad("state-update|exception|%s" % type(e).__name__, "derivative after an in-place state update raises",
                 {"exception": "%s: %s" % (type(e).__name__, str(e)[:300])})
+    # ---- history: a NumPy buffer refilled in place between two calls - derivatives are those at the buffer's CURRENT rows
+    if not isinstance(p, MultiOutputColumn):
+        try:
+            buf = np.array(xq, dtype=float, copy=True)
+            for nm in ("gradient", "hessian"):
+                meth(nm, buf, True)
+            alt = np.array(xq[::-1], dtype=float, copy=True)
+            alt[:, :d] += 0.03125
+            buf[...] = alt
+            for nm in ("gradient", "hessian"):
+                got, want = meth(nm, buf, True), meth(nm, np.array(alt, copy=True), True)
+                st.evals += 2
+                if not np.array_equal(got, want, equal_nan=True):
+                    bad("buffer-reuse|" + nm, "%s(buf) after the NumPy buffer was refilled in place differs from %s on a fresh copy of the same rows" % (nm, nm),
+                        {"sequence": "buf = x.copy(); p.%s(buf); buf[...] = alt; p.%s(buf) vs p.%s(alt.copy())" % (nm, nm, nm), "alt": alt.tolist(),
+                         "max_difference": float(np.nanmax(np.abs(got - want))) if got.shape == want.shape else "shape"})
+                    break
+        except Exception as e:  # noqa
+            bad("buffer-reuse|exception|%s" % type(e).__name__, "derivative methods raise on a refilled buffer",
+                {"exception": "%s: %s" % (type(e).__name__, str(e)[:300])})
     return ref0
 
 
